@@ -127,6 +127,9 @@ func selfTest(root, onlyProp string, verbose bool) (ran, bad int, lines []string
 				continue
 			}
 			props = []string{onlyProp}
+			if onlyProp != meta.Property {
+				meta.Caught = nil // expectation is recorded for the primary property only
+			}
 		}
 		ran++
 		name := filepath.Base(d)
